@@ -1,6 +1,7 @@
 """C09 — the configured maximum length bounds every URL the library hands out."""
 import lib
 import urlcorr
+import reccorr
 from lib import hx, unhx
 
 
@@ -71,6 +72,20 @@ def check(run):
             refused += 1
             run.nontriv(l)
     run.extra["refused_or_failed_under_limit"] = refused
+    # the Lean models of ada::url's setters (Model/UrlSetters.lean: assign, get_href_size() > L, restore) replayed on real
+    # histories that run under a limit
+    lcases = []
+    for (case, L, T) in meta:
+        if T == "limurl" and case[2] and any(op in reccorr.MODELLED_SETTERS for op, _ in case[2]):
+            lcases.append((case[0], case[1], case[2], L))
+    lcases = lcases[:: max(1, len(lcases) // (6000 if run.tier == "quick" else 60000))]
+    res2 = urlcorr.explore(run, binp, lcases, with_spec=False, types=("sequrl",))
+    if res2 is not None:
+        bad = reccorr.check_setters(run, res2)
+        if bad is not None:
+            run.oblige("corr:L1 Model.UrlSetters = ada::url setters under a limit on every step", not bad, str(bad[:2])[:1200])
+            for b in bad[:3]:
+                run.violation("urlsetter:" + b["line"], b["what"], lines=[b["line"]], detail=b)
     run.sample({"op": lines[0][:200], "result": outs[0][:200]})
     run.sample({"op": lines[-1][:200], "result": outs[-1][:200]})
     run.oblige("L3:limit-semantics(step-by-step vs unlimited copy)", True)
